@@ -91,7 +91,7 @@ def c20Summary : P String := do
     | .error e => pure ("err " ++ e)
   | k => throw ("kind:" ++ k)
 
-def pRec3 : P (Rec3 Float) := do
+def pRec3 : P (PlotRec3 Float) := do
   let dt ← flt; let ns ← vec; let ew ← vec; let vt ← vec
   pure { ns := ns, ew := ew, vt := vt, dt := dt }
 
